@@ -85,9 +85,10 @@ package boltz
 // a child-store change also produces exactly one event on the parent store; a store without parent produces none; the
 // parent's state is derived from the child's, so the child's final state must have been re-read first
 //@ func (*BaseStore).fireParentEvent
-//@   props C08 C07
+//@   props C08 C07 C15
 //@   errflow
 //@   nosafety
+//@   callpre[the-parent's-flow-runs-the-whole-event-protocol-vetoing-constraints-included] fireEvents@1: recv == ret(newEntityChangeFlow, 1)
 //@   requires[final-state-loaded-first] ecsLoaded[changeFlow]
 //@   modifies *, ocCnt, ocFn, ocRecv
 //@   ensures[no-parent-no-event] old(store.parent) == nil ==> result == nil && ocSame()
@@ -185,11 +186,6 @@ package boltz
 //@   lensures[every-flow-fired-once-in-order] result == nil && store.parent == nil && bucket != nil && changeFlows[0] != nil ==> forall(j, 0 <= j && j < len(changeFlows) ==> sel(ocRecv[ctxTx[ctx]], ocCnt[ctxTx[ctx]] - len(changeFlows) + j) == ref(changeFlows[j]))
 //@   invariant 1: len(changeFlows) >= 1 && (hasChildren == (len(changeFlows) > 1)) && forall(j, 1 <= j && j < len(changeFlows) ==> changeFlows[j] != nil && ecsCtx[changeFlows[j]] == ref(ctx))
 //@   invariant 2: len(changeFlows) >= 1 && (changeFlows[0] != nil ==> len(changeFlows) >= 1 && forall(j, 0 <= j && j < len(changeFlows) ==> changeFlows[j] != nil && ecsCtx[changeFlows[j]] == ref(ctx)) && forall(j, 0 <= j && j <= rangeindex ==> sel(ocRecv[ctxTx[ctx]], ocCnt[ctxTx[ctx]] - (rangeindex + 1) + j) == ref(changeFlows[j])))
-//@ func (*BaseStore).DeleteWhere
-//@   props C07
-//@   errflow
-//@   nosafety
-//@   modifies *, ocCnt, ocFn, ocRecv, cxN, cxWho, cxPhase, cxCtx, cxPersist, edDone, pdN, pdWho, pdId
 
 // ---- delivery: what runs after the commit ----
 // ppN/ppWho/ppState: the log of ProcessPostCommit calls (which constraint, with which state)
